@@ -283,6 +283,14 @@ def judge(spec, scenario, history):
         return ra, {}
     ops = oracle.all_ops(scenario)
     probes = {}
+    by = oracle.events_by_op(history, ops)
+    for oid, op in ops.items():
+        oc = next((e for e in by.get(oid, []) if e["k"] in ("return", "raise")), None)
+        if oc is not None and oc["k"] == "raise" and not oc.get("api_error") and oc.get("cls") != "RetryError" \
+                and not (scenario["client"] == "rest" and oc.get("cls") == "ValueError"):
+            # (over REST a request that matches no binding legitimately raises ValueError before sending)
+            return [{"rule": "call_failed", "op": oid, "method": op["method"], "msg": f"{scenario['client']} call raised "
+                     f"{oc.get('cls')}: {oc.get('msg')}"}], probes
     first_attempt = {}
     for e in history:
         if e["k"] != "attempt" or e.get("op") not in ops:
